@@ -5,6 +5,8 @@
   two blocks makes the generated program ground-incoherent, so it cannot compile.
 -/
 import DisjointImpls.Lemmas.Refine
+import DisjointImpls.Lemmas.OverlapEndToEnd
+import DisjointImpls.Props.C11
 namespace DI
 
 /-- two different members of one family whose blocks both apply to `q`: both helper impls apply to the *same*
@@ -27,5 +29,349 @@ theorem C04_overlap_two_families (W : World) (F1 F2 : Family) (m1 m2 : Member) (
     (c1 : ThetaCovers F1 m1) (c2 : ThetaCovers F2 m2) (s1 : SizedCompat W F1 m1) (s2 : SizedCompat W F2 m2) :
     applies W m1.blk q → applies W m2.blk q → genSel W F1 m1 q ∧ genSel W F2 m2 q :=
   fun a1 a2 => ⟨spec_sub_gen W F1 m1 q ok1 hw1 c1 s1 a1, spec_sub_gen W F2 m2 q ok2 hw2 c2 s2 a2⟩
+
+/-! ## End to end: from the grouping the model computes to a coherence error
+
+  `Lemmas/OverlapEndToEnd.lean`. `IncoherentAt W sp groups q`: in the program generated from `groups` two helper impls of
+  one helper trait apply to `q` with the same helper arguments (two members at DIFFERENT positions of one family), or two
+  main impls apply to `q` (families at DIFFERENT positions of the grouping) — exactly what rustc's coherence check (E0119)
+  rejects (trusted fact (b), DESIGN §10).
+
+  The two blocks are required to have different CANONICAL texts (`canon it1 ≠ canon it2`; this implies that they stand at
+  different positions of the input). Two blocks at different positions with the same canonical text (finding D12) collapse
+  into ONE member (`mkBuckets` replaces the earlier one), the invocation is accepted and the expansion is coherent although
+  the user wrote two overlapping impls: `C04_end_to_end_identical_blocks_counterexample`. -/
+
+/-- the general step: in an accepted grouping in which every bucket block is placed (`hperm`, the conclusion of the
+    partition theorems of C11) and whose families satisfy the hypotheses of the refinement (`memberOK`, `thetaCoversB`,
+    `keysOverHeaderB`, all executable; `WorldTotal`, `SizedCompat` about the world), two input blocks with different
+    canonical texts that both apply to `q` make the expansion ground-incoherent at `q` -/
+theorem C04_end_to_end_core (items : List T) (groups : Groups) (h : parseGroups items = .ok groups) (sp : List String)
+    (hperm : (groups.flatMap (fun e => e.2.2)).Perm ((mkBuckets (items.map mkBlk)).flatMap (fun bk => bk.2)))
+    (hmem : ∀ e ∈ groups, ∀ m ∈ (familyOfGroup sp e).members,
+      memberOK (familyOfGroup sp e) m = true ∧ thetaCoversB (familyOfGroup sp e) m = true)
+    (hkoh : ∀ e ∈ groups, keysOverHeaderB (familyOfGroup sp e) = true)
+    (W : World) (hw : ∀ e ∈ groups, WorldTotal W (familyOfGroup sp e))
+    (hsz : ∀ e ∈ groups, ∀ m ∈ (familyOfGroup sp e).members, SizedCompat W (familyOfGroup sp e) m)
+    (q : T) (it1 it2 : T) (h1 : it1 ∈ items) (h2 : it2 ∈ items) (hne : canon it1 ≠ canon it2) :
+    applies W (mkBlock (canon it1)) q → applies W (mkBlock (canon it2)) q → IncoherentAt W sp groups q := by
+  intro a1 a2
+  have hyp : ∀ e ∈ groups, ∀ m ∈ (familyOfGroup sp e).members,
+      memberOK (familyOfGroup sp e) m = true ∧ ThetaCovers (familyOfGroup sp e) m ∧
+        SizedCompat W (familyOfGroup sp e) m :=
+    fun e he m hm => ⟨(hmem e he m hm).1, (thetaCoversB_iff _ m).1 (hmem e he m hm).2, hsz e he m hm⟩
+  rcases blocks_placed h sp hperm h1 h2 hne with
+    ⟨e, he, i, j, hi, hj, hij, b1, b2⟩ | ⟨i, j, hi, hj, hij, m1, hm1, m2, hm2, b1, b2⟩
+  · obtain ⟨ok1, c1, s1⟩ := hyp e he _ (List.getElem_mem hi)
+    obtain ⟨ok2, c2, s2⟩ := hyp e he _ (List.getElem_mem hj)
+    exact Or.inl ⟨e, he, i, j, hi, hj, hij,
+      C04_overlap_same_family W _ ((keysOverHeaderB_iff _).1 (hkoh e he)) _ _ q ok1 ok2 (hw e he) c1 c2 s1 s2
+        (by rw [b1]; exact a1) (by rw [b2]; exact a2)⟩
+  · have he1 : groups[i] ∈ groups := List.getElem_mem hi
+    have he2 : groups[j] ∈ groups := List.getElem_mem hj
+    obtain ⟨ok1, c1, s1⟩ := hyp _ he1 m1 hm1
+    obtain ⟨ok2, c2, s2⟩ := hyp _ he2 m2 hm2
+    exact Or.inr ⟨i, j, hi, hj, hij, m1, hm1, m2, hm2,
+      C04_overlap_two_families W _ _ m1 m2 q ok1 ok2 (hw _ he1) (hw _ he2) c1 c2 s1 s2
+        (by rw [b1]; exact a1) (by rw [b2]; exact a2)⟩
+
+/-- OVERLAP IS NEVER SILENTLY RESOLVED, END TO END, for un-nested invocations: for every input of the model that is
+    accepted (`parseGroups items = .ok groups`), has no nested headers (`noNesting`) and whose groups pass the executable
+    checks of `C02_end_to_end_flat_coverage` (`flatGroupOK`, `hdrCoversB`) and `keysOverHeaderB` (every parameter
+    occurrence of a key has a counterpart of a compatible kind in the family's header), for every world in which dispatch
+    traits define their associated types (`WorldTotal`) and the `Sized` requirements are compatible (`SizedCompat`,
+    finding D7), and every query `q`: if two input blocks with different canonical texts both apply to `q`, the expansion
+    is ground-incoherent at `q` — two helper impls of one helper trait, or two main impls of the user's trait, apply to one
+    ground reference, so the expansion does not compile. -/
+theorem C04_end_to_end_flat (items : List T) (groups : Groups) (h : parseGroups items = .ok groups)
+    (hn : noNesting items = true) (sp : List String)
+    (hok : ∀ e ∈ groups, flatGroupOK e = true ∧ hdrCoversB (familyOfGroup sp e) = true ∧
+      keysOverHeaderB (familyOfGroup sp e) = true)
+    (W : World) (hw : ∀ e ∈ groups, WorldTotal W (familyOfGroup sp e))
+    (hsz : ∀ e ∈ groups, ∀ m ∈ (familyOfGroup sp e).members, SizedCompat W (familyOfGroup sp e) m)
+    (q : T) (it1 it2 : T) (h1 : it1 ∈ items) (h2 : it2 ∈ items) (hne : canon it1 ≠ canon it2) :
+    applies W (mkBlock (canon it1)) q → applies W (mkBlock (canon it2)) q → IncoherentAt W sp groups q :=
+  C04_end_to_end_core items groups h sp (C11_partition_partial items groups h hn)
+    (fun e he m hm => ⟨flat_memberOK h (noNesting_spec items hn) sp he (hok e he).1 m hm,
+      flat_thetaCovers h (noNesting_spec items hn) sp he (hok e he).2.1 m hm⟩)
+    (fun e he => (hok e he).2.2) W hw hsz q it1 it2 h1 h2 hne
+
+/-- the same, stated for two POSITIONS `i`, `j` of the input (`canon items[i] ≠ canon items[j]` implies `i ≠ j`) -/
+theorem C04_end_to_end_flat_positions (items : List T) (groups : Groups) (h : parseGroups items = .ok groups)
+    (hn : noNesting items = true) (sp : List String)
+    (hok : ∀ e ∈ groups, flatGroupOK e = true ∧ hdrCoversB (familyOfGroup sp e) = true ∧
+      keysOverHeaderB (familyOfGroup sp e) = true)
+    (W : World) (hw : ∀ e ∈ groups, WorldTotal W (familyOfGroup sp e))
+    (hsz : ∀ e ∈ groups, ∀ m ∈ (familyOfGroup sp e).members, SizedCompat W (familyOfGroup sp e) m)
+    (q : T) (i j : Nat) (hi : i < items.length) (hj : j < items.length) (hne : canon items[i] ≠ canon items[j]) :
+    applies W (mkBlock (canon items[i])) q → applies W (mkBlock (canon items[j])) q → IncoherentAt W sp groups q :=
+  C04_end_to_end_flat items groups h hn sp hok W hw hsz q _ _ (List.getElem_mem hi) (List.getElem_mem hj) hne
+
+/-- … with the group check `flatGroupOK` replaced by the check `flatInputOK` on the input alone
+    (`C02_flatGroupOK_of_input`) -/
+theorem C04_end_to_end_flat_input (items : List T) (groups : Groups) (h : parseGroups items = .ok groups)
+    (hn : noNesting items = true) (hin : flatInputOK items = true) (sp : List String)
+    (hok : ∀ e ∈ groups, hdrCoversB (familyOfGroup sp e) = true ∧ keysOverHeaderB (familyOfGroup sp e) = true)
+    (W : World) (hw : ∀ e ∈ groups, WorldTotal W (familyOfGroup sp e))
+    (hsz : ∀ e ∈ groups, ∀ m ∈ (familyOfGroup sp e).members, SizedCompat W (familyOfGroup sp e) m)
+    (q : T) (it1 it2 : T) (h1 : it1 ∈ items) (h2 : it2 ∈ items) (hne : canon it1 ≠ canon it2) :
+    applies W (mkBlock (canon it1)) q → applies W (mkBlock (canon it2)) q → IncoherentAt W sp groups q :=
+  C04_end_to_end_flat items groups h hn sp
+    (fun e he => ⟨flatGroupOK_of_input h (noNesting_spec items hn) hin he, (hok e he).1, (hok e he).2⟩)
+    W hw hsz q it1 it2 h1 h2 hne
+
+/-- OVERLAP IS NEVER SILENTLY RESOLVED, END TO END, for ARBITRARY accepted invocations (nested headers included): the
+    same conclusion when the recorded header relation is acyclic (`acyclicB`, C11 Part 4b: every block is then placed
+    exactly once) and the groups pass the executable checks of `C02_end_to_end_coverage` (`nestedGroupOK`,
+    `nestedCoversB`) and `keysOverHeaderB` -/
+theorem C04_end_to_end_nested (items : List T) (groups : Groups) (h : parseGroups items = .ok groups)
+    (ha : acyclicB items = true) (sp : List String)
+    (hok : ∀ e ∈ groups, nestedGroupOK (parseEnv items) e = true ∧ nestedCoversB (familyOfGroup sp e) = true ∧
+      keysOverHeaderB (familyOfGroup sp e) = true)
+    (W : World) (hw : ∀ e ∈ groups, WorldTotal W (familyOfGroup sp e))
+    (hsz : ∀ e ∈ groups, ∀ m ∈ (familyOfGroup sp e).members, SizedCompat W (familyOfGroup sp e) m)
+    (q : T) (it1 it2 : T) (h1 : it1 ∈ items) (h2 : it2 ∈ items) (hne : canon it1 ≠ canon it2) :
+    applies W (mkBlock (canon it1)) q → applies W (mkBlock (canon it2)) q → IncoherentAt W sp groups q :=
+  C04_end_to_end_core items groups h sp (C11_partition_acyclic items groups h ha)
+    (fun e he m hm => ⟨nested_memberOK h sp he (hok e he).1 m hm, nested_thetaCovers (hok e he).2.1 m hm⟩)
+    (fun e he => (hok e he).2.2) W hw hsz q it1 it2 h1 h2 hne
+
+/-- … in particular for inputs whose headers are well-formed (`headersWF`, the side condition of `C11_partition`) -/
+theorem C04_end_to_end_nested_headersWF (items : List T) (groups : Groups) (h : parseGroups items = .ok groups)
+    (hwf : headersWF items = true) (sp : List String)
+    (hok : ∀ e ∈ groups, nestedGroupOK (parseEnv items) e = true ∧ nestedCoversB (familyOfGroup sp e) = true ∧
+      keysOverHeaderB (familyOfGroup sp e) = true)
+    (W : World) (hw : ∀ e ∈ groups, WorldTotal W (familyOfGroup sp e))
+    (hsz : ∀ e ∈ groups, ∀ m ∈ (familyOfGroup sp e).members, SizedCompat W (familyOfGroup sp e) m)
+    (q : T) (it1 it2 : T) (h1 : it1 ∈ items) (h2 : it2 ∈ items) (hne : canon it1 ≠ canon it2) :
+    applies W (mkBlock (canon it1)) q → applies W (mkBlock (canon it2)) q → IncoherentAt W sp groups q :=
+  C04_end_to_end_nested items groups h (C11_acyclic_of_headersWF items hwf) sp hok W hw hsz q it1 it2 h1 h2 hne
+
+/-- the contrapositive reading the property uses — "an accepted invocation that compiles has no overlapping blocks": if
+    the expansion is ground-coherent at every query (which is what a successful compilation guarantees), then no two
+    input blocks with different canonical texts apply to a common query. Un-nested invocations. -/
+theorem C04_compiles_no_overlap (items : List T) (groups : Groups) (h : parseGroups items = .ok groups)
+    (hn : noNesting items = true) (sp : List String)
+    (hok : ∀ e ∈ groups, flatGroupOK e = true ∧ hdrCoversB (familyOfGroup sp e) = true ∧
+      keysOverHeaderB (familyOfGroup sp e) = true)
+    (W : World) (hw : ∀ e ∈ groups, WorldTotal W (familyOfGroup sp e))
+    (hsz : ∀ e ∈ groups, ∀ m ∈ (familyOfGroup sp e).members, SizedCompat W (familyOfGroup sp e) m)
+    (hcoh : ∀ q, ¬ IncoherentAt W sp groups q) :
+    ∀ it1 ∈ items, ∀ it2 ∈ items, canon it1 ≠ canon it2 →
+      ∀ q, ¬ (applies W (mkBlock (canon it1)) q ∧ applies W (mkBlock (canon it2)) q) :=
+  fun it1 h1 it2 h2 hne q a =>
+    hcoh q (C04_end_to_end_flat items groups h hn sp hok W hw hsz q it1 it2 h1 h2 hne a.1 a.2)
+
+/-- … and for arbitrary accepted invocations with an acyclic header relation -/
+theorem C04_compiles_no_overlap_nested (items : List T) (groups : Groups) (h : parseGroups items = .ok groups)
+    (ha : acyclicB items = true) (sp : List String)
+    (hok : ∀ e ∈ groups, nestedGroupOK (parseEnv items) e = true ∧ nestedCoversB (familyOfGroup sp e) = true ∧
+      keysOverHeaderB (familyOfGroup sp e) = true)
+    (W : World) (hw : ∀ e ∈ groups, WorldTotal W (familyOfGroup sp e))
+    (hsz : ∀ e ∈ groups, ∀ m ∈ (familyOfGroup sp e).members, SizedCompat W (familyOfGroup sp e) m)
+    (hcoh : ∀ q, ¬ IncoherentAt W sp groups q) :
+    ∀ it1 ∈ items, ∀ it2 ∈ items, canon it1 ≠ canon it2 →
+      ∀ q, ¬ (applies W (mkBlock (canon it1)) q ∧ applies W (mkBlock (canon it2)) q) :=
+  fun it1 h1 it2 h2 hne q a =>
+    hcoh q (C04_end_to_end_nested items groups h ha sp hok W hw hsz q it1 it2 h1 h2 hne a.1 a.2)
+
+/-- `keysOverHeaderB` follows from the simpler executable check `keysOverHeaderSimpleB` (no expression parameters in the
+    header and the keys, every parameter of a key occurs in the header) -/
+theorem C04_keysOverHeaderB_of_simple (F : Family) (h : keysOverHeaderSimpleB F = true) : keysOverHeaderB F = true :=
+  keysOverHeaderB_of_simple h
+
+/-! ### Closed examples -/
+
+namespace Ex04
+open Ex11
+/-- `n<a = g>` -/
+def bind1 (n a g : String) : T :=
+  path [.node "PathSegment" [] [.node "Ident" [n] [], .node "PathArguments::AngleBracketed" [] [.node "Ign" [] [leaf "None"],
+    .node "List" [] [.node "GenericArgument::AssocType" [] [.node "AssocType" [] [.node "Ident" [a] [], leaf "None", tyPath [seg g]]]]]]]
+/-- `impl<T: D1<G = A> + D2> Kita for T {}`  +  `impl<T: D1 + D2<H = X>> Kita for T {}`: the rows `[A, _]` and `[_, X]` do
+    not generalise each other, so `is_overlapping` lets them pass — but they unify (a type with `G = A` and `H = X`) -/
+def items : List T :=
+  [implOf [tyParam "T" [traitBound (bind1 "D1" "G" "A"), traitBound (path [seg "D2"])]] (tyPath [seg "T"]),
+   implOf [tyParam "T" [traitBound (path [seg "D1"]), traitBound (bind1 "D2" "H" "X")]] (tyPath [seg "T"])]
+/-- `impl<T: D1<G = A> + D2> Kita for T {}`  +  `impl<T> Kita for Vec<T> where Vec<T>: D1 + D2<H = X> {}` (nested header) -/
+def itemsNested : List T :=
+  [implOf [tyParam "T" [traitBound (bind1 "D1" "G" "A"), traitBound (path [seg "D2"])]] tT,
+   implW [tyParam "T" []] [pred (vecOf tT) [traitBound (path [seg "D1"]), traitBound (bind1 "D2" "H" "X")]] (vecOf tT)]
+/-- the same block twice (finding D12): `impl<T: Dispatch<Group = GroupA>> Kita for T {}` × 2 -/
+def itemsDup : List T := [blockFor "GroupA", blockFor "GroupA"]
+def u32T : T := tyPath [seg "u32"]
+/-- `ty: D1<G = A>` and `ty: D2<H = X>`, nothing else (every impl lists both names so that `WorldTotal`, which does not
+    look at the trait, holds); every type is `Sized` -/
+def worldFor (ty : T) : World :=
+  ⟨fun tr ty' => if (tr = path [seg "D1"] ∨ tr = path [seg "D2"]) ∧ ty' = ty
+      then some [("G", tyPath [seg "A"]), ("H", tyPath [seg "X"])] else none, fun _ => true⟩
+def W : World := worldFor u32T
+def WN : World := worldFor (vecOf u32T)
+/-- `u32: Dispatch<Group = GroupA>`, nothing else -/
+def WDup : World :=
+  ⟨fun tr ty => if tr = path [seg "Dispatch"] ∧ ty = u32T then some [("Group", tyPath [seg "GroupA"])] else none, fun _ => true⟩
+/-- the query `Kita for ty` -/
+def query (ty : T) : T := .node "ImplGroupId" [] [.node "Some" [] [path [seg "Kita"]], ty]
+
+theorem worldFor_total (ty : T) (F : Family) (hF : ∀ k ∈ F.keys, k.a = "G" ∨ k.a = "H") : WorldTotal (worldFor ty) F := by
+  intro k hk tr ty' bs hd
+  simp only [worldFor] at hd
+  split at hd
+  · cases hd
+    rcases hF k hk with ha | ha <;> rw [ha]
+    · exact ⟨_, rfl⟩
+    · exact ⟨_, rfl⟩
+  · cases hd
+end Ex04
+
+section C04Examples
+open Ex04
+set_option maxRecDepth 1000000
+
+/-- non-vacuity of `C04_end_to_end_flat` on a GENUINE overlap that the macro accepts: the pair
+    `impl<T: D1<G = A> + D2> Kita for T` / `impl<T: D1 + D2<H = X>> Kita for T` (rows `[A, _]`, `[_, X]`: neither
+    generalises the other) is accepted as one family, un-nested, passes all executable checks; in the world `Ex04.W`
+    (`u32: D1<G = A>`, `u32: D2<H = X>`), which is total and `Sized`-compatible, both blocks apply to `Kita for u32`.
+    Hence the expansion is ground-incoherent at `Kita for u32` (the two helper impls `Helper<A, <T as D2>::H>` and
+    `Helper<<T as D1>::G, X>` both apply to `u32` with helper arguments `A, X`): rustc rejects it with E0119. -/
+theorem C04_end_to_end_overlap_example :
+    ∃ gs, parseGroups items = .ok gs ∧ noNesting items = true ∧ flatInputOK items = true ∧
+      (∀ e ∈ gs, flatGroupOK e = true ∧ hdrCoversB (familyOfGroup ["_ŠČ0"] e) = true ∧
+        keysOverHeaderB (familyOfGroup ["_ŠČ0"] e) = true) ∧
+      (∀ e ∈ gs, WorldTotal W (familyOfGroup ["_ŠČ0"] e)) ∧
+      (∀ e ∈ gs, ∀ m ∈ (familyOfGroup ["_ŠČ0"] e).members, SizedCompat W (familyOfGroup ["_ŠČ0"] e) m) ∧
+      canon items[0] ≠ canon items[1] ∧
+      applies W (mkBlock (canon items[0])) (query u32T) ∧ applies W (mkBlock (canon items[1])) (query u32T) ∧
+      IncoherentAt W ["_ŠČ0"] gs (query u32T) := by
+  obtain ⟨gs, hgs, hchk⟩ := ParseResult.ok_of_check (r := parseGroups items)
+    (f := fun gs => gs.all (fun e => flatGroupOK e && hdrCoversB (familyOfGroup ["_ŠČ0"] e) &&
+      keysOverHeaderB (familyOfGroup ["_ŠČ0"] e) &&
+      (familyOfGroup ["_ŠČ0"] e).keys.all (fun k => k.a == "G" || k.a == "H"))) (by with_unfolding_all decide)
+  have hn : noNesting items = true := by with_unfolding_all decide
+  simp only [List.all_eq_true, Bool.and_eq_true, Bool.or_eq_true, beq_iff_eq] at hchk
+  have hok : ∀ e ∈ gs, flatGroupOK e = true ∧ hdrCoversB (familyOfGroup ["_ŠČ0"] e) = true ∧
+      keysOverHeaderB (familyOfGroup ["_ŠČ0"] e) = true :=
+    fun e he => ⟨(hchk e he).1.1.1, (hchk e he).1.1.2, (hchk e he).1.2⟩
+  have hw : ∀ e ∈ gs, WorldTotal W (familyOfGroup ["_ŠČ0"] e) := fun e he => worldFor_total _ _ (hchk e he).2
+  have hsz : ∀ e ∈ gs, ∀ m ∈ (familyOfGroup ["_ŠČ0"] e).members, SizedCompat W (familyOfGroup ["_ŠČ0"] e) m :=
+    fun _ _ _ _ _ _ _ _ _ => rfl
+  have hne : canon items[0] ≠ canon items[1] := by with_unfolding_all decide
+  have a0 : applies W (mkBlock (canon items[0])) (query u32T) :=
+    applies_of_B (ρ := [("_ŠČ0", .ty u32T)]) (by with_unfolding_all decide)
+  have a1 : applies W (mkBlock (canon items[1])) (query u32T) :=
+    applies_of_B (ρ := [("_ŠČ0", .ty u32T)]) (by with_unfolding_all decide)
+  exact ⟨gs, hgs, hn, by with_unfolding_all decide, hok, hw, hsz, hne, a0, a1,
+    C04_end_to_end_flat_positions items gs hgs hn ["_ŠČ0"] hok W hw hsz (query u32T) 0 1 (by decide) (by decide) hne a0 a1⟩
+
+/-- non-vacuity of `C04_end_to_end_nested` on a genuine overlap through a NESTED header: the pair
+    `impl<T: D1<G = A> + D2> Kita for T` / `impl<T> Kita for Vec<T> where Vec<T>: D1 + D2<H = X>` is accepted as one family
+    with two members, is not un-nested, its headers are well-formed (`headersWF`, hence `acyclicB`), it passes
+    `nestedGroupOK`, `nestedCoversB`, `keysOverHeaderB`; in the world `Ex04.WN` (`Vec<u32>: D1<G = A>`, `Vec<u32>: D2<H = X>`)
+    both blocks apply to `Kita for Vec<u32>`. Hence the expansion is ground-incoherent at `Kita for Vec<u32>`. -/
+theorem C04_end_to_end_nested_overlap_example :
+    ∃ gs, parseGroups itemsNested = .ok gs ∧ noNesting itemsNested = false ∧ headersWF itemsNested = true ∧
+      acyclicB itemsNested = true ∧
+      (∀ e ∈ gs, nestedGroupOK (parseEnv itemsNested) e = true ∧ nestedCoversB (familyOfGroup ["_ŠČ0"] e) = true ∧
+        keysOverHeaderB (familyOfGroup ["_ŠČ0"] e) = true) ∧
+      (∀ e ∈ gs, WorldTotal WN (familyOfGroup ["_ŠČ0"] e)) ∧
+      (∀ e ∈ gs, ∀ m ∈ (familyOfGroup ["_ŠČ0"] e).members, SizedCompat WN (familyOfGroup ["_ŠČ0"] e) m) ∧
+      canon itemsNested[0] ≠ canon itemsNested[1] ∧
+      applies WN (mkBlock (canon itemsNested[0])) (query (Ex11.vecOf u32T)) ∧
+      applies WN (mkBlock (canon itemsNested[1])) (query (Ex11.vecOf u32T)) ∧
+      IncoherentAt WN ["_ŠČ0"] gs (query (Ex11.vecOf u32T)) := by
+  obtain ⟨gs, hgs, hchk⟩ := ParseResult.ok_of_check (r := parseGroups itemsNested)
+    (f := fun gs => gs.all (fun e => nestedGroupOK (parseEnv itemsNested) e && nestedCoversB (familyOfGroup ["_ŠČ0"] e) &&
+      keysOverHeaderB (familyOfGroup ["_ŠČ0"] e) &&
+      (familyOfGroup ["_ŠČ0"] e).keys.all (fun k => k.a == "G" || k.a == "H"))) (by with_unfolding_all decide)
+  have hwf : headersWF itemsNested = true := by with_unfolding_all decide
+  have ha : acyclicB itemsNested = true := C11_acyclic_of_headersWF _ hwf
+  simp only [List.all_eq_true, Bool.and_eq_true, Bool.or_eq_true, beq_iff_eq] at hchk
+  have hok : ∀ e ∈ gs, nestedGroupOK (parseEnv itemsNested) e = true ∧ nestedCoversB (familyOfGroup ["_ŠČ0"] e) = true ∧
+      keysOverHeaderB (familyOfGroup ["_ŠČ0"] e) = true :=
+    fun e he => ⟨(hchk e he).1.1.1, (hchk e he).1.1.2, (hchk e he).1.2⟩
+  have hw : ∀ e ∈ gs, WorldTotal WN (familyOfGroup ["_ŠČ0"] e) := fun e he => worldFor_total _ _ (hchk e he).2
+  have hsz : ∀ e ∈ gs, ∀ m ∈ (familyOfGroup ["_ŠČ0"] e).members, SizedCompat WN (familyOfGroup ["_ŠČ0"] e) m :=
+    fun _ _ _ _ _ _ _ _ _ => rfl
+  have hne : canon itemsNested[0] ≠ canon itemsNested[1] := by with_unfolding_all decide
+  have a0 : applies WN (mkBlock (canon itemsNested[0])) (query (Ex11.vecOf u32T)) :=
+    applies_of_B (ρ := [("_ŠČ0", .ty (Ex11.vecOf u32T))]) (by with_unfolding_all decide)
+  have a1 : applies WN (mkBlock (canon itemsNested[1])) (query (Ex11.vecOf u32T)) :=
+    applies_of_B (ρ := [("_ŠČ0", .ty u32T)]) (by with_unfolding_all decide)
+  exact ⟨gs, hgs, by with_unfolding_all decide, hwf, ha, hok, hw, hsz, hne, a0, a1,
+    C04_end_to_end_nested itemsNested gs hgs ha ["_ŠČ0"] hok WN hw hsz _ _ _
+      (List.getElem_mem (by decide : 0 < itemsNested.length)) (List.getElem_mem (by decide : 1 < itemsNested.length))
+      hne a0 a1⟩
+
+/-- the hypothesis `canon it1 ≠ canon it2` cannot be weakened to "different positions" (finding D12): the input
+    `impl<T: Dispatch<Group = GroupA>> Kita for T` written TWICE is accepted; the two textually identical blocks collapse
+    into ONE member of one family (`mkBuckets` keeps one block per text), all executable checks and both world hypotheses
+    hold, both input blocks (positions 0 and 1) apply to `Kita for u32` in the world `Ex04.WDup`
+    (`u32: Dispatch<Group = GroupA>`) — and the expansion is NOT ground-incoherent there: it has one family with one
+    member. The macro silently accepts two identical (hence overlapping) impls, which rustc alone would reject. -/
+theorem C04_end_to_end_identical_blocks_counterexample :
+    ∃ gs, parseGroups itemsDup = .ok gs ∧ noNesting itemsDup = true ∧ flatInputOK itemsDup = true ∧
+      (∀ e ∈ gs, flatGroupOK e = true ∧ hdrCoversB (familyOfGroup ["_ŠČ0"] e) = true ∧
+        keysOverHeaderB (familyOfGroup ["_ŠČ0"] e) = true) ∧
+      (∀ e ∈ gs, WorldTotal WDup (familyOfGroup ["_ŠČ0"] e)) ∧
+      (∀ e ∈ gs, ∀ m ∈ (familyOfGroup ["_ŠČ0"] e).members, SizedCompat WDup (familyOfGroup ["_ŠČ0"] e) m) ∧
+      gs.map (fun e => (familyOfGroup ["_ŠČ0"] e).members.length) = [1] ∧
+      applies WDup (mkBlock (canon itemsDup[0])) (query u32T) ∧ applies WDup (mkBlock (canon itemsDup[1])) (query u32T) ∧
+      ¬ IncoherentAt WDup ["_ŠČ0"] gs (query u32T) := by
+  obtain ⟨gs, hgs, hchk⟩ := ParseResult.ok_of_check (r := parseGroups itemsDup)
+    (f := fun gs => gs.map (fun e => (familyOfGroup ["_ŠČ0"] e).members.length) == [1] &&
+      gs.all (fun e => flatGroupOK e && hdrCoversB (familyOfGroup ["_ŠČ0"] e) &&
+      keysOverHeaderB (familyOfGroup ["_ŠČ0"] e) &&
+      (familyOfGroup ["_ŠČ0"] e).keys.all (fun k => k.a == "Group"))) (by with_unfolding_all decide)
+  simp only [List.all_eq_true, Bool.and_eq_true, beq_iff_eq] at hchk
+  obtain ⟨hlen, hchk⟩ := hchk
+  have hw : ∀ e ∈ gs, WorldTotal WDup (familyOfGroup ["_ŠČ0"] e) := by
+    intro e he k hk tr ty bs hd
+    rw [(hchk e he).2 k hk]
+    simp only [WDup] at hd
+    split at hd
+    · cases hd; exact ⟨_, rfl⟩
+    · cases hd
+  have hg : gs.length ≤ 1 := by
+    have := congrArg List.length hlen
+    simp only [List.length_map, List.length_cons, List.length_nil] at this
+    omega
+  have hm : ∀ e ∈ gs, (familyOfGroup ["_ŠČ0"] e).members.length ≤ 1 := by
+    intro e he
+    have : (familyOfGroup ["_ŠČ0"] e).members.length ∈ gs.map (fun e => (familyOfGroup ["_ŠČ0"] e).members.length) :=
+      List.mem_map.2 ⟨e, he, rfl⟩
+    rw [hlen, List.mem_singleton] at this
+    omega
+  exact ⟨gs, hgs, by with_unfolding_all decide, by with_unfolding_all decide,
+    fun e he => ⟨(hchk e he).1.1.1, (hchk e he).1.1.2, (hchk e he).1.2⟩, hw, fun _ _ _ _ _ _ _ _ _ => rfl, hlen,
+    applies_of_B (ρ := [("_ŠČ0", .ty u32T)]) (by with_unfolding_all decide),
+    applies_of_B (ρ := [("_ŠČ0", .ty u32T)]) (by with_unfolding_all decide),
+    not_incoherent_of_single hg hm⟩
+
+/-- hence the statement for two different POSITIONS without `canon items[i] ≠ canon items[j]` is false -/
+theorem C04_end_to_end_flat_positions_unconditional_false :
+    ¬ ∀ (items : List T) (groups : Groups), parseGroups items = .ok groups → noNesting items = true →
+        (∀ e ∈ groups, flatGroupOK e = true ∧ hdrCoversB (familyOfGroup ["_ŠČ0"] e) = true ∧
+          keysOverHeaderB (familyOfGroup ["_ŠČ0"] e) = true) →
+        ∀ W : World, (∀ e ∈ groups, WorldTotal W (familyOfGroup ["_ŠČ0"] e)) →
+        (∀ e ∈ groups, ∀ m ∈ (familyOfGroup ["_ŠČ0"] e).members, SizedCompat W (familyOfGroup ["_ŠČ0"] e) m) →
+        ∀ (q : T) (i j : Nat) (hi : i < items.length) (hj : j < items.length), i ≠ j →
+          applies W (mkBlock (canon items[i])) q → applies W (mkBlock (canon items[j])) q →
+            IncoherentAt W ["_ŠČ0"] groups q := by
+  intro hall
+  obtain ⟨gs, hgs, hn, _, hok, hw, hsz, _, a0, a1, hnot⟩ := C04_end_to_end_identical_blocks_counterexample
+  exact hnot (hall itemsDup gs hgs hn hok WDup hw hsz (query u32T) 0 1 (by decide) (by decide) (by decide) a0 a1)
+
+/-- `keysOverHeaderB` holds on the examples also through the simpler check -/
+example : ∃ gs, parseGroups items = .ok gs ∧ (gs.all (fun e => keysOverHeaderSimpleB (familyOfGroup ["_ŠČ0"] e))) = true :=
+  ParseResult.ok_of_check (f := fun gs => gs.all (fun e => keysOverHeaderSimpleB (familyOfGroup ["_ŠČ0"] e)))
+    (by with_unfolding_all decide)
+/-- `keysOverHeaderB` is a separate check: it is not implied by `hdrCoversB`. Header `Kita for [u8; N]` (`N` in expression
+    position), key `Wr<N>: D` with associated type `G` (`N` in the ambiguous generic-argument position, which a header
+    occurrence in expression position does not determine) -/
+example :
+    let F : Family := ⟨.node "ImplGroupId" [] [.node "None" [] [], .node "Type::Array" [] [.node "u8" [] [], .eparam "_ŠČ0"]],
+      [⟨.node "Wr" [] [.node "GenericArgument::Type" [] [.tparam "_ŠČ0"]], .node "D" [] [], "G"⟩], [], []⟩
+    hdrCoversB F = true ∧ keysOverHeaderB F = false := by with_unfolding_all decide
+end C04Examples
 
 end DI
